@@ -257,4 +257,88 @@ theorem C04_verdict (s : Shape) (hw : s.wf = true) (ho : ownLeaves s = true) (hn
     (h : List Call) : (states s (init s) h).map (wasSuccessfulOf s) = verdicts false h :=
   verdict_states s (ok_of_own s ho hn) hn h (init s) false (allBad_init s ho hn) (leaves_ne s hw _)
 
+/-! ## stop() reaches every underlying result -/
+theorem caps_own (c : Shape) (h : ownLeaves c = true) : (caps c).stop = true ∧ (caps c).shouldStop = true := by
+  cases c <;> simp_all [ownLeaves, caps]
+
+mutual
+theorem stop_leaves : ∀ (s : Shape), ownLeaves s = true → s.noStream = true → ∀ (st : St s),
+    ∀ l ∈ leaves s (step s st .stop), LeafSt.shouldStop l = true
+  | .sink _, h, _, _ => by simp [ownLeaves] at h
+  | .tbt, h, _, _ => by simp [ownLeaves] at h
+  | .tt _, _, _, st => by simp [leaves, step, ttStep, LeafSt.shouldStop, Call.logged]
+  | .text _, _, _, st => by simp [leaves, step, textStep, ttStep, LeafSt.shouldStop, Call.logged]
+  | .etod c, h, hn, (own, inner) => by
+      have h' : ownLeaves c = true := by simpa [ownLeaves] using h
+      simp only [leaves, step, etodStep, etodStop, (caps_own c h').1, ite_true]
+      exact stop_leaves c h' (by simpa [Shape.noStream] using hn) inner
+  | .deco c, h, hn, st => by
+      simp only [leaves, step]; exact stop_leaves c (by simpa [ownLeaves] using h) (by simpa [Shape.noStream] using hn) st
+  | .tagger _ _ c, h, hn, st => by
+      simp only [leaves, step]; exact stop_leaves c (by simpa [ownLeaves] using h) (by simpa [Shape.noStream] using hn) st
+  | .tfr c, h, hn, (own, inner) => by
+      simp only [leaves, step, tfrStep]
+      exact stop_leaves c (by simpa [ownLeaves] using h) (by simpa [Shape.noStream] using hn) inner
+  | .multi cs, h, hn, (own, inner) => by
+      simp only [leaves, step]
+      exact stop_leavesL cs (by simpa [ownLeaves] using h) (by simpa [Shape.noStream] using hn) inner
+  | .e2s _, _, hn, _ => by simp [Shape.noStream] at hn
+theorem stop_leavesL : ∀ (ss : List Shape), ownLeavesL ss = true → Shape.noStreamL ss = true → ∀ (st : StL ss),
+    ∀ l ∈ leavesL ss (stepL ss st .stop), LeafSt.shouldStop l = true
+  | [], _, _, _ => by simp [leavesL]
+  | s :: ss, h, hn, (x, xs) => by
+      simp only [ownLeavesL, Bool.and_eq_true] at h
+      simp only [Shape.noStreamL, Bool.and_eq_true] at hn
+      simp only [leavesL, stepL, List.mem_append]
+      intro l hl
+      rcases hl with hl | hl
+      · exact stop_leaves s h.1 hn.1 x l hl
+      · exact stop_leavesL ss h.2 hn.2 xs l hl
+end
+
+/- `shouldStop` of a graph is that of its leaves -/
+mutual
+theorem ss_leaves : ∀ (s : Shape), ownLeaves s = true → s.noStream = true → ∀ (st : St s),
+    shouldStopOf s st = (leaves s st).any LeafSt.shouldStop
+  | .sink _, h, _, _ => by simp [ownLeaves] at h
+  | .tbt, h, _, _ => by simp [ownLeaves] at h
+  | .tt _, _, _, _ => by simp [shouldStopOf, leaves, LeafSt.shouldStop]
+  | .text _, _, _, _ => by simp [shouldStopOf, leaves, LeafSt.shouldStop]
+  | .etod c, h, hn, (own, inner) => by
+      have h' : ownLeaves c = true := by simpa [ownLeaves] using h
+      simp only [shouldStopOf, leaves, (caps_own c h').2, ite_true]
+      exact ss_leaves c h' (by simpa [Shape.noStream] using hn) inner
+  | .deco c, h, hn, st => by
+      simp only [shouldStopOf, leaves]; exact ss_leaves c (by simpa [ownLeaves] using h) (by simpa [Shape.noStream] using hn) st
+  | .tagger _ _ c, h, hn, st => by
+      simp only [shouldStopOf, leaves]; exact ss_leaves c (by simpa [ownLeaves] using h) (by simpa [Shape.noStream] using hn) st
+  | .tfr c, h, hn, (own, inner) => by
+      simp only [shouldStopOf, leaves]; exact ss_leaves c (by simpa [ownLeaves] using h) (by simpa [Shape.noStream] using hn) inner
+  | .multi cs, h, hn, (own, inner) => by
+      simp only [shouldStopOf, leaves]
+      exact ss_leavesL cs (by simpa [ownLeaves] using h) (by simpa [Shape.noStream] using hn) inner
+  | .e2s _, _, hn, _ => by simp [Shape.noStream] at hn
+theorem ss_leavesL : ∀ (ss : List Shape), ownLeavesL ss = true → Shape.noStreamL ss = true → ∀ (st : StL ss),
+    (shouldStopL ss st).any id = (leavesL ss st).any LeafSt.shouldStop
+  | [], _, _, _ => rfl
+  | s :: ss, h, hn, (x, xs) => by
+      simp only [ownLeavesL, Bool.and_eq_true] at h
+      simp only [Shape.noStreamL, Bool.and_eq_true] at hn
+      simp only [shouldStopL, leavesL, List.any_cons, List.any_append, id]
+      rw [ss_leaves s h.1 hn.1 x, ss_leavesL ss h.2 hn.2 xs]
+end
+
+/-- **C04 (stop reaches).**  `stop()` on any adapter or multiplexer sets `shouldStop` on every result below it,
+and on the object itself. -/
+theorem C04_stop_reaches (s : Shape) (hw : s.wf = true) (ho : ownLeaves s = true) (hn : s.noStream = true) (st : St s) :
+    (∀ l ∈ leaves s (step s st .stop), LeafSt.shouldStop l = true) ∧ shouldStopOf s (step s st .stop) = true := by
+  have h1 := stop_leaves s ho hn st
+  refine ⟨h1, ?_⟩
+  rw [ss_leaves s ho hn]
+  cases hl : leaves s (step s st .stop) with
+  | nil => exact absurd hl (leaves_ne s hw _)
+  | cons x xs =>
+    rw [hl] at h1
+    simp [h1 x (by simp)]
+
 end TTV.Props.C04
